@@ -109,3 +109,7 @@ func flipSignatureBit(raw []byte, bit int) []byte {
 	st.Signature.Signature[(bit/8)%len(st.Signature.Signature)] ^= 1 << (bit % 8)
 	return cbor.Marshal(&st)
 }
+
+// FlipSignatureBit returns a copy of a signed envelope with one bit of its signature flipped (nil if
+// the bytes are not an envelope).
+func FlipSignatureBit(raw []byte, bit int) []byte { return flipSignatureBit(raw, bit) }
